@@ -294,6 +294,7 @@ pub fn canon(o: &Obj) -> String {
             }
             Seq::Stream(st) => match st.len() {
                 None => "stream-inf".into(),
+                Some(n) if n > 100_000 => format!("stream-big({})", n),
                 Some(_) => match st.force() {
                     Ok(v) => format!(
                         "stream[{}]",
